@@ -178,28 +178,35 @@ impl Storage {
             let writer = writer.clone();
             let perf_counter = perf_counter.clone();
             threadpool.execute(move || {
-                let wal_data = writer.load(&wal_file).unwrap();
-                perf_counter.disk_read_wal(wal_data.len() as u64);
-                let wal_segment = WalSegment::deserialize(&wal_data).unwrap();
-                log::info!(
-                    "Found wal segment {} with id {} and {} rows in {} tables",
-                    wal_file.display(),
-                    wal_segment.id,
-                    wal_segment
-                        .data
-                        .tables
-                        .values()
-                        .map(|t| t.len())
-                        .sum::<usize>(),
-                    wal_segment.data.tables.len(),
-                );
-                tx.send((wal_file, wal_segment, wal_data.len() as u64)).unwrap();
+                // Failures are sent back to the waiting thread: a panic in here would leave it
+                // waiting for a reply that never comes.
+                let result = writer.load(&wal_file).and_then(|wal_data| {
+                    perf_counter.disk_read_wal(wal_data.len() as u64);
+                    let wal_segment = WalSegment::deserialize(&wal_data)?;
+                    log::info!(
+                        "Found wal segment {} with id {} and {} rows in {} tables",
+                        wal_file.display(),
+                        wal_segment.id,
+                        wal_segment
+                            .data
+                            .tables
+                            .values()
+                            .map(|t| t.len())
+                            .sum::<usize>(),
+                        wal_segment.data.tables.len(),
+                    );
+                    Ok((wal_segment, wal_data.len() as u64))
+                });
+                tx.send((wal_file, result)).unwrap();
             });
         }
 
         let mut wal_size = 0;
         let mut wal_segments = Vec::new();
-        for (path, wal_segment, size) in rx.iter().take(num_wal_files) {
+        for (path, result) in rx.iter().take(num_wal_files) {
+            let (wal_segment, size) = result.unwrap_or_else(|err| {
+                panic!("Failed to load wal segment {}: {}", path.display(), err)
+            });
                 if wal_segment.id < earliest_uncommited_wal_id {
                     if readonly {
                         log::info!("Skipping wal segment {}", path.display());
